@@ -90,6 +90,11 @@ func FlushFromOverrideDefaultNI(c *fluent.GRIBIClient, wantACK fluent.Programmin
 // default NI using the Get RPC.
 func FlushFromNonMasterDefaultNI(c *fluent.GRIBIClient, wantACK fluent.ProgrammingResult, t testing.TB, _ ...TestOpt) {
 	defer flushServer(c, t)
+	// The election ID that is used for the Flush below is two lower than the
+	// counter after the entries were added. Move the counter on first, so that
+	// ID is never zero (which is an invalid ID rather than an old one) when this
+	// test is the first to run in a suite that starts at election ID 1.
+	electionID.Inc()
 	addFlushEntriesToNI(c, defaultNetworkInstanceName, wantACK, t)
 
 	// addFlushEntriesToNI increments the election ID so to check with the current value,
